@@ -258,6 +258,46 @@ func handlerStateless(c *Ctx, r *Report, rule, rel, outerName string) bool {
 				pos = posOf(c, w.ins)
 			}
 		}
+		// objects recycled through a sync.Pool carry the previous request's contents
+		// unless they are reset as a whole before use
+		eachInstr(f, func(_ *ssa.BasicBlock, _ int, ins ssa.Instruction) {
+			call, ok := ins.(*ssa.Call)
+			if !ok || bad != "" {
+				return
+			}
+			obj := calleeObj(&call.Call)
+			if obj == nil || obj.Pkg() == nil || obj.Pkg().Path() != "sync" || obj.Name() != "Get" {
+				return
+			}
+			recv := obj.Type().(*types.Signature).Recv()
+			if recv == nil || !strings.HasSuffix(types.TypeString(recv.Type(), nil), "sync.Pool") {
+				return
+			}
+			reset := false
+			for _, ref := range *call.Referrers() {
+				ta, ok := ref.(*ssa.TypeAssert)
+				if !ok {
+					continue
+				}
+				for _, r2 := range *ta.Referrers() {
+					var ptr ssa.Value = ta
+					if ex, ok := r2.(*ssa.Extract); ok && ex.Index == 0 {
+						ptr = ex
+					}
+					for _, r3 := range *ptr.Referrers() {
+						if st, ok := r3.(*ssa.Store); ok && st.Addr == ptr {
+							if k, ok := st.Val.(*ssa.Const); ok && k.Value == nil {
+								reset = true
+							}
+						}
+					}
+				}
+			}
+			if !reset {
+				bad = "a working object is taken from a sync.Pool and used without being reset as a whole (*p = T{})"
+				pos = posOf(c, call)
+			}
+		})
 		if !r.check(bad == "", rule, fnKey(f)+"|no state kept between requests", pos, "the handler's working variables are local to one invocation", "the handler closure keeps state between requests: "+bad+" - members an incoming message does not set keep the previous request's values (e.g. the subscriber of the previous request is debited, the previous grant is repeated), and connections race on it") {
 			ok = false
 		}
